@@ -636,6 +636,9 @@ def _isinstance1(interp, v, c, node):
             if isinstance(v, SOpaque):
                 raise Unsupported(f"isinstance({v!r}, {nm}) undetermined", node)
             return False
+        if hasattr(v, "pandas_kind") or v is None or isinstance(v, (int, float, str, list, dict, tuple)):
+            # a modelled pandas value (or a plain Python value) against another library type: decided by the model's own kind
+            return getattr(v, "pandas_kind", None) == nm
         raise Unsupported(f"isinstance against library type {nm}", node)
     if isinstance(c, SClass):
         if isinstance(v, SObj) and v.cls is not None:
